@@ -141,8 +141,27 @@ func (w *mpWriter) hashInto(h *hasher) {
 
 func init() {
 	// ---- client side ----
-	R("net/http.NewRequest", func(m *Machine, a []Value) Value { return m.newRequest(a[0], a[1], a[2]) })
-	R("net/http.NewRequestWithContext", func(m *Machine, a []Value) Value { return m.newRequest(a[1], a[2], a[3]) })
+	// NewRequest: as net/http does for *bytes.Buffer / *bytes.Reader / *strings.Reader bodies, GetBody is
+	// set (to a closure the harness package supplies as verifGetBodyMaker(b []byte) func() (io.ReadCloser, error);
+	// without that helper GetBody stays nil, which is what net/http does for other readers)
+	mkReq := func(off int) func(m *Machine, g *G, fr *Frame, in ssa.Instruction, a []Value) {
+		return func(m *Machine, g *G, fr *Frame, in ssa.Instruction, a []Value) {
+			res := m.newRequest(a[off], a[off+1], a[off+2])
+			if t, ok := res.(Tuple); ok {
+				if c, ok := t[0].(Ptr); ok && c != nil {
+					if d, has := m.side[c]; has && d != nil {
+						if mk, ok := m.ex.ex.hpkg.Members["verifGetBodyMaker"].(*ssa.Function); ok {
+							cl := m.callSync(g, mk, []Value{d})
+							m.setField(c, m.namedType("net/http", "Request"), "GetBody", cl)
+						}
+					}
+				}
+			}
+			m.setResult(fr, in, res)
+		}
+	}
+	intrinsics["net/http.NewRequest"] = mkReq(0)
+	intrinsics["net/http.NewRequestWithContext"] = mkReq(1)
 	// WithContext: the context is stored in the request (the model does not copy the request)
 	R("(*net/http.Request).WithContext", func(m *Machine, a []Value) Value {
 		m.touch(a[0].(Ptr))
